@@ -105,6 +105,10 @@ pub enum Entry {
     /// a language server whose workspace folder is the directory (it reads and decodes the files
     /// at initialize), asked for the semantic tokens of every file
     LspTokens,
+    /// a language server whose workspace folder is the directory: the files stay on disk in their
+    /// stored encodings, except the last one (in name order), which the editor opens with its text;
+    /// the observation is what the server publishes for that document
+    LspOpenOne,
 }
 
 #[derive(Clone, Debug, Serialize, Deserialize, PartialEq)]
@@ -440,10 +444,17 @@ pub fn exec_variant(world: &World, v: &Variant) -> Obs {
     let texts: Vec<(PathBuf, String)> = v.files.iter().map(|f| (r.join("ws").join(&f.name), file_text(world, f))).collect();
     let root_str = r.to_string_lossy().to_string();
 
-    if entry == Entry::LspTokens {
+    if entry == Entry::LspTokens || entry == Entry::LspOpenOne {
         // also a forked child: the server reads the files at initialize
         let v2 = v.clone();
-        return match crate::seam::run_forked(move || exec_lsp_tokens(&v2)) {
+        let opened: Option<(String, String)> = if entry == Entry::LspOpenOne {
+            let mut names: Vec<&FileSpec> = v.files.iter().filter(|f| f.raw.is_none()).collect();
+            names.sort_by(|a, b| a.name.cmp(&b.name));
+            names.last().map(|f| (f.name.clone(), file_text(world, f)))
+        } else {
+            None
+        };
+        return match crate::seam::run_forked(move || if v2.entry == Entry::LspOpenOne { exec_lsp_open_one(&v2, opened.clone()) } else { exec_lsp_tokens(&v2) }) {
             Ok(obs) => obs,
             Err(why) => Obs { outcome: Outcome::Panic(why), diags: vec![], probes: BTreeMap::new(), fs_points: vec![], faults_fired: vec![], source_orders: vec![], dir_orders: vec![], printed: Printed::default() },
         };
@@ -467,7 +478,7 @@ pub fn exec_variant(world: &World, v: &Variant) -> Obs {
         Entry::Check => (ironplcc::cli::check(&args, false), vec![]),
         Entry::Echo => (ironplcc::cli::echo(&args, false), vec![]),
         Entry::Tokenize => (ironplcc::cli::tokenize(&args, false), vec![]),
-        Entry::LspTokens => unreachable!("handled by exec_lsp_tokens"),
+        Entry::LspTokens | Entry::LspOpenOne => unreachable!("handled by exec_lsp_tokens / exec_lsp_open_one"),
         Entry::ApiText | Entry::ApiPush => {
             let mut project = FileBackedProject::new();
             let mut diags = vec![];
@@ -525,6 +536,43 @@ pub fn exec_variant(world: &World, v: &Variant) -> Obs {
             printed: Printed::default(),
         },
     }
+}
+
+/// The never-opened files of a workspace folder as the language server decodes them, judged by what
+/// it publishes for one opened document that may depend on them.
+fn exec_lsp_open_one(v: &Variant, opened: Option<(String, String)>) -> Obs {
+    use crate::lsp::{Event, Session};
+    let r = root().to_path_buf();
+    let hooks = SimHooks::new(&r, v.dir_seed, v.faults.clone());
+    let ws_uri = format!("file://{}/ws", r.display());
+    let mut s = Session::start(v.hash_seed, hooks.clone(), Some(ws_uri));
+    let mut diags = vec![];
+    let mut published = false;
+    if let Some((name, text)) = &opened {
+        let ev = Event::Open { uri: format!("ws:{name}"), version: 1, text: text.clone() };
+        s.deliver(Some(0), "didOpen", crate::lsp::event_message(&ev, 0).unwrap());
+    }
+    let inc = s.shutdown_and_exit();
+    for st in inc.steps.iter().filter(|st| st.label == "didOpen") {
+        for o in &st.outputs {
+            if o["method"].as_str() == Some("textDocument/publishDiagnostics") {
+                published = true;
+                for d in o["params"]["diagnostics"].as_array().cloned().unwrap_or_default() {
+                    // (positions are line/column here, not offsets: only the code takes part in comparisons)
+                    let lab = LabelRec { file: opened.as_ref().map(|x| x.0.clone()).unwrap_or_default(), start: 0, end: 0, message: String::new(), text_len: None, on_char_boundary: None };
+                    diags.push(DiagRec { code: d["code"].as_str().unwrap_or("").to_string(), primary: lab, secondary: vec![], with_project: true });
+                }
+            }
+        }
+    }
+    let log = hooks.take_log();
+    let outcome = match (&inc.died, &inc.result) {
+        (Some(d), _) => Outcome::Panic(d.clone()),
+        (None, Some(Ok(()))) if opened.is_none() || (published && diags.is_empty()) => Outcome::Ok,
+        (None, Some(Ok(()))) if published => Outcome::Err("diagnostics published".into()),
+        (None, other) => Outcome::Panic(format!("no publishDiagnostics for the opened document, server result {other:?}")),
+    };
+    Obs { outcome, diags, probes: log.probes, fs_points: log.fs_points, faults_fired: log.faults_fired, source_orders: log.source_orders, dir_orders: log.dir_orders, printed: Printed::default() }
 }
 
 /// The decoded files as the language server sees them: initialize on the workspace folder, then a
